@@ -31,6 +31,16 @@ CHECKS = {
          "A Go reference model of the WKB/EWKB reader generates, by exhaustive choice-sequence search with <=3/<=4 non-default field choices and <=14 fields, every byte string of its alphabet together with the verdict OK(geometry) / TooLarge{level,n,limit} / Error, for three decoder modes and 8/27 limit configurations; each string is decoded by Unmarshal, hex Decode and Scan and must conform (equal geometry, well-formed, canonical re-encode; exact ErrGeometryTooLarge fields; some error). Forged counts are tried in ascending magnitude with the heap-allocation delta bounded. A role-blind sweep (all prefixes, byte and 4-byte-word substitutions of every corpus encoding) checks totality/well-formedness/canonical re-encode, and a nesting-depth family runs in a sacrificial subprocess.",
          "Bounded: <=4 deviations, <=14 fields, alphabets as listed; noise inside coordinate blocks not explored. Known finding: unbounded recursion depth (stack overflow) on deeply nested collections.",
          "DESIGN.md section 2, C04"),
+ "C05": ("exploration",
+         "bounded exhaustive enumeration of WKT-expressible geometries x all spelling variants against an independent reference reader/writer",
+         "Every geometry of a WKT-expressible corpus (all shapes up to 3 parts per type in four layouts, EMPTY members at every position, collections nested to depth 3, fixed-layout empty collections) plus a float lattice of formatting boundary values is (a) marshalled by the library and parsed back by the library and by an independent recursive-descent WKT reader, both compared bit for bit with the model, and (b) written by an independent writer in every one of 144 combinations of spelling variants and parsed by the library.",
+         "Bounded: <=3 parts, nesting <=3, lattice of ~10^4 floats. Trusted: ref/wkt.go (cross-checked against the library on the whole corpus).",
+         "DESIGN.md section 2, C05"),
+ "C06": ("model_checking",
+         "stateless exhaustive tree search over token sequences (three alphabets, depth-bounded) with sound LALR(1) prefix pruning on the real parser, differential against an independent reference reader",
+         "All token sequences over three alphabets are explored to depth 9/11/16 (quick) and 10/13/19 (thorough): every explored sequence is parsed by wkt.Unmarshal and must not panic (the parser's 14 internal assertions are therefore unreachable within the bound), an error must render with a position inside the input, an accepted geometry must be well formed, of one layout, with lines >=2 and closed rings >=4 points and must survive re-encoding; accept/reject and the geometry must agree with the reference reader. Prefixes are pruned only when the parse failed strictly before the last token. Also all single-token mutations of valid corpus texts and all short byte strings over a 20-byte alphabet.",
+         "Bounded by depth per alphabet; byte strings <=5 bytes. Error positions taken from the rendered SyntaxError message.",
+         "DESIGN.md section 2, C06"),
  "C08": ("model_checking",
          "explicit-state BFS over Extend histories on real Bounds values plus exhaustive enumeration of geometries and box pairs against a per-dimension reference fold",
          "Bounds() of every geometry of the shape universe and of every collection of <=3 members (mixed layouts, empty members, nested collections) is compared per semantic dimension (X,Y,Z,M located via ZIndex/MIndex) with a reference fold, together with IsEmpty, Bounds.Polygon and the GeoJSON bbox; all Extend histories up to depth 4/5 from five start layouts over a 12-geometry alphabet are executed on real Bounds values, each reached state compared with the fold over its multiset and with every other order reaching that multiset; Overlaps/OverlapsPoint are compared with closed-interval arithmetic on all pairs of small boxes incl. empty ones.",
